@@ -97,6 +97,13 @@ pub enum Malform {
     Truncate(u16),
     /// residual exactly i32::MIN through an escape partition
     ResidualMin(u8),
+    /// LPC subframe with maximal coefficients, shift 0, maximal warm-up and large residuals: the
+    /// predictor output grows by a factor of ~2^14 per sample (checksums stay valid)
+    LpcBlowup(u8),
+    /// LPC order 1, coefficient -2, shift 0, minimal warm-up, zero residuals: every sample is
+    /// -2 x the previous one, so the values run through every power of two up to the type's
+    /// most negative value exactly
+    LpcDoubling(u8),
 }
 
 #[derive(Debug, Clone, PartialEq, Eq)]
@@ -512,12 +519,51 @@ fn emit_subframe(
             | Malform::PartOrderHuge(i)
             | Malform::OrderGtBlock(i)
             | Malform::HugeUnary(i, _)
-            | Malform::ResidualMin(i) => i == sub_index,
+            | Malform::ResidualMin(i)
+            | Malform::LpcBlowup(i)
+            | Malform::LpcDoubling(i) => i == sub_index,
             _ => false,
         }
     };
     let mal = mal.filter(|m| for_me(*m));
 
+    if let Some(Malform::LpcBlowup(_)) = mal {
+        let order = 2usize.min(block.saturating_sub(1)).max(1);
+        w.bit(0);
+        w.u(6, 31 + order as u64);
+        w.bit(0);
+        let top = (1i64 << (bps - 1)) - 1;
+        for k in 0..order.min(block) {
+            w.i(bps, if k % 2 == 0 { top } else { -top - 1 });
+        }
+        w.u(4, 14); // precision 15
+        w.i(5, 0); // shift 0
+        for k in 0..order {
+            w.i(15, if k == 0 { 16383 } else { -16384 });
+        }
+        w.u(2, 0);
+        w.u(4, 0);
+        w.u(4, 15);
+        w.u(5, 31);
+        for i in order..block {
+            w.i(31, if i % 3 == 0 { (1 << 30) - 1 } else { -(1 << 30) });
+        }
+        return SubOut { fallback: None };
+    }
+    if let Some(Malform::LpcDoubling(_)) = mal {
+        w.bit(0);
+        w.u(6, 32); // LPC order 1
+        w.bit(0);
+        w.i(bps, -(1i64 << (bps - 1)));
+        w.u(4, 2); // precision 3
+        w.i(5, 0); // shift 0
+        w.i(3, -2); // (a larger coefficient with a compensating shift would wrap in the product instead)
+        w.u(2, 0);
+        w.u(4, 0);
+        w.u(4, 15); // escape
+        w.u(5, 0); // width 0: all residuals zero
+        return SubOut { fallback: None };
+    }
     // wasted bits
     let all_zero = samples.iter().all(|s| *s == 0);
     let avail = if all_zero {
